@@ -101,7 +101,8 @@ pub fn run(src: &str, policy: &Policy) -> HostRun {
             Ok(StepResult::Complete(v)) => {
                 out.outcome = format!("value:{}", runner::show_value(v.value()));
                 let q = interp.verif_quiescence();
-                if q.suspended_for_order || q.wait_contexts > 0 || q.pending_orders > 0 || q.order_responses > 0 {
+                // (answers to ids the program never issued stay queued: host misuse, not judged)
+                if q.suspended_for_order || q.wait_contexts > 0 || q.pending_orders > 0 || (q.order_responses > 0 && policy.hostile == 0) {
                     out.problems.push((
                         "complete-with-outstanding".into(),
                         format!("Complete reported while suspended_for_order={} wait_contexts={} pending_orders={} undelivered_responses={}", q.suspended_for_order, q.wait_contexts, q.pending_orders, q.order_responses),
